@@ -7,6 +7,8 @@ pub mod ops;
 pub mod schema;
 #[path = "tchecks.rs"]
 pub mod tchecks;
+#[path = "tchecks2.rs"]
+pub mod tchecks2;
 
 pub use ops::{entry, entry_default, Entry};
 use vcore::report::{install_silent_panic_hook, Args};
